@@ -244,7 +244,7 @@ func (Op Multp) Op_instruction_verilog_extra_modules(arch *Arch, flavor string) 
 	result += "\n"
 	result += "endmodule\n"
 
-	return []string{"adder"}, []string{result}
+	return []string{"multp"}, []string{result}
 }
 
 func (Op Multp) AbstractAssembler(arch *Arch, words []string) ([]UsageNotify, error) {
